@@ -56,10 +56,35 @@ _JSON_STR = re.compile(r'^"(\{.*\}|\[.*\])"$')
 
 def run_tlc(pid, name, specdir, module, cfg, *, workers="auto", timeout=600, simulate=None,
             depth=None, seed_=None, env=None, extra=None, dfs=False, heap=None, keep_lines=True,
-            deadlock=False, line_sink=None):
+            deadlock=False, line_sink=None, cache=False):
     """Run TLC on a scratch copy of specdir.  PrintT(ToJson(x)) lines are collected in .lines
-    (or passed to line_sink(obj) when given)."""
+    (or passed to line_sink(obj) when given).
+    cache=True (design-half runs only: exhaustive checks of a model that read nothing from /repo and
+    whose printed lines are not used): a run that PASSED is remembered under out/tlccache keyed by the
+    hash of every .tla/.cfg it reads and of its options, so that the sibling checks that share the model
+    (C24/C25/C26, C27/C28) do not repeat an identical exploration. Failures are never cached."""
     work = outdir(pid, "tlc_" + name, clean=True)
+    ckey = None
+    if cache and not os.environ.get("VERIF_NO_TLC_CACHE"):
+        import hashlib
+        h = hashlib.sha256()
+        for d in (specdir, os.path.join(VERIF, "spec", "Common")):
+            if os.path.isdir(d):
+                for f in sorted(os.listdir(d)):
+                    if f.endswith(".tla") or f == cfg:
+                        h.update(f.encode() + b"\0" + open(os.path.join(d, f), "rb").read() + b"\0")
+        h.update(repr((module, cfg, simulate, depth, seed_, extra, deadlock, sorted((env or {}).items()))).encode())
+        ckey = os.path.join(VERIF, "out", "tlccache", h.hexdigest() + ".json")
+        if os.path.exists(ckey):
+            try:
+                c = json.load(open(ckey))
+                r = TLCResult()
+                r.generated, r.distinct, r.depth, r.wall = c["generated"], c["distinct"], c["depth"], c["wall"]
+                r.ok, r.returncode, r.cmd, r.raw, r.workdir, r.cached = True, 0, c["cmd"], c["raw"], work, True
+                log("TLC %s %s: result of an identical earlier run reused (%d distinct states, %.0fs then)" % (module, cfg, r.distinct, r.wall))
+                return r
+            except Exception:
+                pass
     for f in os.listdir(specdir):
         if f.endswith((".tla", ".cfg")):
             shutil.copy(os.path.join(specdir, f), work)
@@ -144,6 +169,13 @@ def run_tlc(pid, name, specdir, module, cfg, *, workers="auto", timeout=600, sim
     r.ok = (p.returncode == 0) and not r.timeout
     r.returncode = p.returncode
     r.workdir = work
+    if ckey and r.ok and not r.violation and r.distinct > 0:
+        os.makedirs(os.path.dirname(ckey), exist_ok=True)
+        tmp = ckey + ".%d" % os.getpid()
+        with open(tmp, "w") as f:
+            json.dump({"generated": r.generated, "distinct": r.distinct, "depth": r.depth, "wall": r.wall,
+                       "cmd": r.cmd, "raw": "\n".join(r.raw.splitlines()[-30:])}, f)
+        os.replace(tmp, ckey)
     return r
 
 
